@@ -279,7 +279,7 @@ class FakeSocket:
         if f is not None:
             self.net._raise(f, self)
         srv = self.net.server_for(addr)
-        if srv is None or (getattr(srv, "down", None) and srv.down != "reset-recv"):
+        if srv is None or (getattr(srv, "down", None) and srv.down not in ("reset-recv",) + SOFT_DOWN):
             kind = getattr(srv, "down", None) or "refused"
             self.net.fired.append({"fault": {"what": kind, "kind": "connect", "server_down": True}, "sock": self.id})
             self.faulted_in.add(self.net.call)
@@ -310,6 +310,17 @@ class FakeSocket:
             self.dead = True
             self.rx.clear()
             return
+        if srv is not None and getattr(srv, "down", None) in SOFT_DOWN:
+            # something answers on the server's address that is not (yet) a working memcached: a load balancer that accepts and
+            # hangs up, a proxy that answers everything with a line of its own, a server that is busy starting
+            net.fired.append({"fault": {"what": srv.down, "kind": "sendall", "server_down": True}, "sock": self.id})
+            self.faulted_in.add(net.call)
+            if srv.down == "hangup":
+                self.rx.clear()
+                self.eof = True
+            else:
+                self.rx.append([b"\x00GARBAGE \xff reply\r\n" if srv.down == "garbage" else b"SERVER_ERROR busy\r\n", net.call])
+            return None
         if srv is not None and getattr(srv, "down", None):
             # the server died under an established connection
             self.dead = True
@@ -448,6 +459,9 @@ class FakeSocket:
 
     def shutdown(self, how):
         pass
+
+
+SOFT_DOWN = ("hangup", "garbage", "busy")      # values of server.down under which connections are still accepted
 
 
 class FakeTLSSocket(FakeSocket):
